@@ -204,11 +204,33 @@ impl serde_saphyr::MessageFormatter for CustomFormatter {
     }
 }
 
+/// A formatter that words every error itself (nothing of the built-in wording, no location suffix)
+/// and ends each message with a fixed non-ASCII tail.
+pub const CUSTOM_TAIL: &str = "«конец-日本語-é»";
+struct OwnWordsFormatter;
+impl serde_saphyr::MessageFormatter for OwnWordsFormatter {
+    fn localizer(&self) -> &dyn serde_saphyr::Localizer {
+        &ShoutLocalizer
+    }
+    fn format_message<'a>(&self, err: &'a Error) -> std::borrow::Cow<'a, str> {
+        std::borrow::Cow::Owned(format!("problème n° {} {CUSTOM_TAIL}", variant_name(err).len()))
+    }
+}
+
 #[derive(Clone, Debug, Default)]
 pub struct Rendered {
     /// (renderer name, text) — or the panic text when rendering unwound
     pub texts: Vec<(&'static str, String)>,
     pub panics: Vec<(&'static str, String)>,
+}
+
+thread_local! {
+    /// source text handed to the miette adapter by `render_all` (None: the adapter is not exercised)
+    static RENDER_SOURCE: std::cell::RefCell<Option<String>> = const { std::cell::RefCell::new(None) };
+}
+
+pub fn set_render_source(s: Option<String>) {
+    RENDER_SOURCE.with(|r| *r.borrow_mut() = s);
 }
 
 /// Render an error with every renderer; totality is monitored here.
@@ -228,6 +250,7 @@ pub fn render_all(e: &Error) -> Rendered {
         e.render_with_formatter(&serde_saphyr::DefaultMessageFormatter)
     });
     one("custom", &|| e.render_with_formatter(&CustomFormatter));
+    one("custom_tail", &|| e.render_with_formatter(&OwnWordsFormatter));
     one("snippet_off", &|| {
         let dev = serde_saphyr::DefaultMessageFormatter;
         e.render_with_options(serde_saphyr::render_options! {
@@ -235,6 +258,12 @@ pub fn render_all(e: &Error) -> Rendered {
             snippets: serde_saphyr::SnippetMode::Off,
         })
     });
+    if let Some(src) = RENDER_SOURCE.with(|r| r.borrow().clone()) {
+        match render_miette(e, &src) {
+            Ok(t) => out.texts.push(("miette_adapter", t)),
+            Err(p) => out.panics.push(("miette_adapter", p)),
+        }
+    }
     out
 }
 
@@ -497,5 +526,27 @@ impl OptVec {
             o.budget = None;
         }
         o
+    }
+    /// Make one budget counter (or alias limit) tight enough that small documents reach it. Which
+    /// events are charged and where the breach is reported then becomes observable.
+    pub fn tighten(&mut self, rng: &mut crate::rng::Rng) {
+        let mut b = self.budget.clone().unwrap_or_default();
+        match rng.below(11) {
+            0 | 1 | 2 => b.max_events = rng.below(24),
+            3 => b.max_documents = rng.below(3),
+            4 => b.max_nodes = rng.below(16),
+            5 => b.max_depth = rng.below(5),
+            6 => b.max_anchors = rng.below(3),
+            7 => b.max_aliases = rng.below(4),
+            8 => b.max_total_scalar_bytes = rng.below(40),
+            9 => b.max_merge_keys = rng.below(2),
+            _ => {
+                self.alias_limits.max_total_replayed_events = rng.below(12);
+                if rng.chance(1, 2) {
+                    self.alias_limits.max_alias_expansions_per_anchor = rng.below(3);
+                }
+            }
+        }
+        self.budget = Some(b);
     }
 }
